@@ -32,7 +32,7 @@ func init() {
 		Rule:           "runs = one server state (report sets at window edges incl. banned slots, 0-6 authorized servers with location lengths 0-255 and ban flags, with/without a migration order with 0-4 new servers, after 0-2 rotations) x one genuine sync (independent decoder == server snapshot == client parser) x 40 (quick) / all-bit (thorough) tamperings: single-bit flips (all of prefix, timestamp, signature; sampled elsewhere), truncation at field boundaries, extension, rewritten length prefix, re-signing under every other key, timestamp shifts to +-86400/+-86401 s, reply bound to another device, server entries / migration orders with missing or foreign GCA signatures; every tampered reply must be rejected with client state and files unchanged; non-trivial = at least 5 tampering kinds were applied to a reply carrying servers or a migration; distinct = distinct decision signatures",
 		Real:           []string{"server sync handler (reply construction and signing)", "client staticServerSync (request, reply parser, freshness, signature, key binding, migration and per-server GCA signatures)"},
 		Stub:           []string{"TCP (simulated connection; the fabric records and tampers)"},
-		RequiredProbes: []string{"c10.genuine", "c10.genuine.migration", "c10.genuine.servers", "c10.refusal", "c10.tamper.bitflip", "c10.tamper.resign", "c10.tamper.time-accept", "c10.tamper.time-reject", "c10.tamper.foreign-server-sig", "c10.tamper.bad-migration", "c10.tamper.other-device", "c10.tamper.prefix"},
+		RequiredProbes: []string{"c10.genuine", "c10.genuine.migration", "c10.genuine.servers", "c10.refusal", "c10.tamper.bitflip", "c10.tamper.resign", "c10.tamper.time-accept", "c10.tamper.time-reject", "c10.tamper.foreign-server-sig", "c10.tamper.bad-migration", "c10.tamper.other-device", "c10.tamper.prefix", "c10.tamper.dup-key"},
 	})
 }
 
@@ -316,6 +316,21 @@ func runC10(m *Sim) {
 			expectReject("other-device", "other-device-key", SealSyncReply(b, tnow, n.Key))
 		case 7: // server entries with a missing or foreign GCA signature (server-signed reply)
 			as := server.AuthorizedServer{PublicKey: Key("evil").Pub, Location: "evil.sim", HttpPort: 1, TcpPort: 2, UdpPort: 3}
+			// The forged entry may also repeat the key of a genuinely signed
+			// entry of the same reply (before or after it): every entry needs
+			// its own signature.
+			genuine := append([]server.AuthorizedServer{}, rep.Servers...)
+			if rep.NewGCA != (glow.PublicKey{}) || len(genuine) == 0 {
+				genuine = []server.AuthorizedServer{SignServer(gca, server.AuthorizedServer{PublicKey: Key("as-genuine").Pub, Location: "genuine.sim", HttpPort: 4, TcpPort: 5, UdpPort: 6})}
+			}
+			site := "server-entry-without-gca-signature"
+			dup := m.C.Chance("dup-key", 1, 2)
+			if dup {
+				as.PublicKey = genuine[m.C.Int("dup-of", len(genuine))].PublicKey
+				as.Banned = m.C.Chance("forged-ban", 1, 2)
+				site = "forged-entry-repeating-a-genuinely-signed-key"
+				m.Probe("c10.tamper.dup-key")
+			}
 			switch m.C.Int("how", 3) {
 			case 0:
 				as = SignServer(Key("rogue"), as)
@@ -323,17 +338,18 @@ func runC10(m *Sim) {
 			case 2:
 				as = SignServer(n.Key, as)
 			}
-			var none [4032]bool
-			bb := EncodeSyncBody(dev.Key.Pub, rep.Offset, &none, glow.PublicKey{}, 0, append(append([]server.AuthorizedServer{}, rep.Servers...), as), [64]byte{})
-			if rep.NewGCA != (glow.PublicKey{}) {
-				bb = EncodeSyncBody(dev.Key.Pub, rep.Offset, &none, glow.PublicKey{}, 0, []server.AuthorizedServer{as}, [64]byte{})
+			list := append(append([]server.AuthorizedServer{}, genuine...), as)
+			if m.C.Chance("forged-first", 1, 3) {
+				list = append([]server.AuthorizedServer{as}, genuine...)
 			}
-			expectReject("foreign-server-sig", "server-entry-without-gca-signature", SealSyncReply(bb, tnow, n.Key))
+			var none [4032]bool
+			bb := EncodeSyncBody(dev.Key.Pub, rep.Offset, &none, glow.PublicKey{}, 0, list, [64]byte{})
+			expectReject("foreign-server-sig", site, SealSyncReply(bb, tnow, n.Key))
 		case 8: // migration orders with a bad outer or inner signature
 			em := server.EquipmentMigration{Equipment: dev.Key.Pub, NewGCA: newGCA.Pub, NewShortID: 77,
 				NewServers: []server.AuthorizedServer{SignServer(newGCA, server.AuthorizedServer{PublicKey: Key("ns").Pub, Location: "ns.sim", HttpPort: 1})}}
 			site := ""
-			switch m.C.Int("how", 4) {
+			switch m.C.Int("how", 5) {
 			case 0: // outer signature by the wrong GCA
 				em = SignMigration(Key("gcaB"), em)
 				site = "migration-signed-by-foreign-gca"
@@ -348,6 +364,11 @@ func runC10(m *Sim) {
 				em.Equipment = other.Key.Pub
 				em = SignMigration(gca, em)
 				site = "migration-for-other-device"
+			case 4: // a correctly signed order relayed with an extra, forged new-server entry repeating a genuine key
+				em = SignMigration(gca, em)
+				forged := server.AuthorizedServer{PublicKey: em.NewServers[0].PublicKey, Banned: true, Location: "evil.sim", HttpPort: 1}
+				em.NewServers = append(em.NewServers, forged)
+				site = "migration-with-appended-forged-server"
 			}
 			var none [4032]bool
 			bb := EncodeSyncBody(dev.Key.Pub, rep.Offset, &none, em.NewGCA, em.NewShortID, em.NewServers, em.Signature)
